@@ -100,6 +100,10 @@ func runC10(w *World, r *Report) {
 	}
 	ruleFoldNoFail(w, r)
 	ruleOpResolve(w, r)
+	// a fold applies built-in operators inside Compile: their panic-freedom on constant operands is part of
+	// "a failing constant sub-expression does not fail Compile"
+	ruleIfaceEq(w, r)
+	ruleDiv0(w, r)
 }
 
 // ---- R-STATELESS --------------------------------------------------------------
